@@ -1,0 +1,78 @@
+//! Parses a version script with the real parser and queries the version / locality the real
+//! `find_match` / `version_for_symbol` / `is_local` assign to a symbol name. Adds no behaviour.
+
+use crate::input_data::ScriptData;
+use crate::symbol::UnversionedSymbolName;
+use crate::version_script::VersionScript;
+
+pub struct VersionNode {
+    pub name: Vec<u8>,
+    pub parent_index: Option<u16>,
+}
+
+pub struct VersionAnswer {
+    /// `find_match`: (version index, is_local). `None` for Rust-style scripts (no find_match).
+    pub find_match: Option<(usize, bool)>,
+    /// `version_for_symbol(name, None)`.
+    pub version_index: Option<u16>,
+    /// `is_local` (for Rust-style scripts: name is not in the global list).
+    pub is_local: bool,
+}
+
+pub struct ParsedVersionScript<'a> {
+    script: VersionScript<'a>,
+}
+
+pub fn parse(text: &[u8]) -> Result<ParsedVersionScript<'_>, String> {
+    VersionScript::parse(ScriptData { raw: text })
+        .map(|script| ParsedVersionScript { script })
+        .map_err(|e| e.to_string())
+}
+
+impl ParsedVersionScript<'_> {
+    pub fn is_rust_style(&self) -> bool {
+        matches!(self.script, VersionScript::Rust(_))
+    }
+
+    /// The versions including the implicit base version at index 0.
+    pub fn nodes(&self) -> Vec<VersionNode> {
+        match &self.script {
+            VersionScript::Regular(s) => s
+                .version_iter()
+                .map(|v| VersionNode {
+                    name: v.name.to_vec(),
+                    parent_index: v.parent_index,
+                })
+                .collect(),
+            VersionScript::Rust(_) => Vec::new(),
+        }
+    }
+
+    pub fn version_count(&self) -> u16 {
+        self.script.version_count()
+    }
+
+    pub fn parent_count(&self) -> u16 {
+        self.script.parent_count()
+    }
+
+    pub fn query(&self, name: &[u8]) -> Result<VersionAnswer, String> {
+        let prehashed = UnversionedSymbolName::prehashed(name);
+        let version_index = self
+            .script
+            .version_for_symbol(&prehashed, None)
+            .map_err(|e| e.to_string())?;
+        Ok(match &self.script {
+            VersionScript::Regular(s) => VersionAnswer {
+                find_match: s.verif_find_match(&prehashed),
+                version_index,
+                is_local: s.is_local(&prehashed),
+            },
+            VersionScript::Rust(s) => VersionAnswer {
+                find_match: None,
+                version_index,
+                is_local: !s.global.contains(&name),
+            },
+        })
+    }
+}
